@@ -28,6 +28,22 @@ pub fn threads() -> usize {
         .unwrap_or(16)
 }
 
+/// Run `side` on its own thread while `main` runs. The scale cases are sequential; started
+/// first and run alongside the sharded bulk they neither wait for the soft time budget nor add
+/// their whole latency.
+pub fn alongside<R>(run: &crate::report::Run, what: &str, side: impl FnOnce() + Send, main: impl FnOnce() -> R) -> R {
+    std::thread::scope(|s| {
+        let h = s.spawn(|| crate::report::guard(side));
+        let r = main();
+        match h.join() {
+            Ok(Ok(())) => {}
+            Ok(Err(m)) => run.inconclusive(format!("harness error in {what}: {m}")),
+            Err(_) => run.inconclusive(format!("harness error in {what}: thread panicked")),
+        }
+        r
+    })
+}
+
 pub fn dispatch(id: &str, tier: Tier, replay: Option<Value>, _rest: &[String]) -> i32 {
     match id {
         "C01" => c01::run(tier, replay),
